@@ -88,6 +88,10 @@ def simulate_and_monitor(ctx, spec, case, monitors, nontrivial=None, key_extra='
         ctx.count('relations_redeclared:' + kind_)
     runs = B.run_schedule(b)
     ctx.current_built = b
+    ctx.count('rejected_run_calls', getattr(b, 'rejected_runs', 0))
+    if getattr(b, 'rejected_run_effects', None):
+        ctx.violation('sanitizer:rejected-run-left-traces', {'effects': b.rejected_run_effects[:3]}, case)
+        return None
     histories = list(b.captures) + [(B.extract(b), runs)]
     if ctx.tier == 'thorough' and ctx.prop in ('C01', 'C03'):
         from . import c19 as C19
